@@ -758,7 +758,20 @@ func runFamily(w *World, p map[string]int, prop string) {
 		case 4:
 			// announce an unconfirmed transaction; when the wallet is idle and
 			// in sync the outcome is known exactly
-			if prop == "C09" && t.Bool(60) {
+			if prop == "C09" && t.Bool(20) {
+				// a transaction announced before is announced again
+				if !check() {
+					break
+				}
+				if tx, free := w.AnnounceAgain(t); tx != nil {
+					if _, ok := w.S.Quiesce(20000); ok && free && relevantToWallets(w, inst, tx) {
+						if _, had := expect[tx.TxHash()]; !had {
+							w.Stat("probe.pending_expected_after_second_announcement")
+						}
+						expect[tx.TxHash()] = "announced again while the wallet was idle and in sync, all parents confirmed, no rival"
+					}
+				}
+			} else if prop == "C09" && t.Bool(60) {
 				if !check() {
 					break
 				}
